@@ -507,11 +507,19 @@ func (w *wireCtx) preEncoded(fd *ast.FuncDecl, e ast.Expr) bool {
 	case *ast.SelectorExpr:
 		return x.Sel.Name == "J5Json"
 	case *ast.Ident:
-		for _, s2 := range w.assignSources(fd, w.info.Uses[x]) {
-			if c, isCall := core.Unparen(s2).(*ast.CallExpr); isCall && core.CalleeName(w.info, c) == "(*"+core.Module+"/"+codecRel+".Codec).encode" {
-				return true
+		srcs := w.assignSources(fd, w.info.Uses[x])
+		if len(srcs) == 0 {
+			return false
+		}
+		for _, s2 := range srcs {
+			if id2, isID := core.Unparen(s2).(*ast.Ident); isID && w.info.Uses[id2] == w.info.Uses[x] {
+				return false
+			}
+			if !w.preEncoded(fd, s2) {
+				return false
 			}
 		}
+		return true
 	case *ast.CallExpr:
 		return core.CalleeName(w.info, x) == "(*"+core.Module+"/"+codecRel+".Codec).encode"
 	}
